@@ -12,6 +12,7 @@ import (
 	"path/filepath"
 	"sort"
 	"strings"
+	"time"
 
 	"github.com/opencontainers/go-digest"
 	ocispec "github.com/opencontainers/image-spec/specs-go/v1"
@@ -475,31 +476,58 @@ func seqProxy(res *worker.Result, k *kase, tr truth, rng *rand.Rand) {
 		stopAt = k.Size
 		res.Count("proxy_limit_trailing_consumer_stopped_at_size", 1)
 	}
-	var got []byte
-	var readErr error
-	buf := make([]byte, 1+rng.IntN(9000))
-	for calls := 0; ; calls++ {
-		if stopAt >= 0 && int64(len(got)) >= stopAt {
-			break
-		}
-		b := buf
-		if stopAt >= 0 && int64(len(b)) > stopAt-int64(len(got)) {
-			b = b[:stopAt-int64(len(got))]
-		}
-		n, err := rc.Read(b)
-		got = append(got, b[:n]...)
-		if err != nil {
-			if err != io.EOF {
-				readErr = err
-			}
-			break
-		}
-		if calls > 1<<22 {
-			res.Violate("harness:proxy-read-loop", "reader never ends", k.witness(nil))
-			return
-		}
+	type consumed struct {
+		got               []byte
+		readErr, closeErr error
+		harnessErr        string
 	}
-	closeErr := rc.Close()
+	consumerDone := make(chan consumed, 1)
+	bufLen := 1 + rng.IntN(9000)
+	go func() {
+		var c consumed
+		defer func() { consumerDone <- c }()
+		buf := make([]byte, bufLen)
+		for calls := 0; ; calls++ {
+			if stopAt >= 0 && int64(len(c.got)) >= stopAt {
+				break
+			}
+			b := buf
+			if stopAt >= 0 && int64(len(b)) > stopAt-int64(len(c.got)) {
+				b = b[:stopAt-int64(len(c.got))]
+			}
+			n, err := rc.Read(b)
+			c.got = append(c.got, b[:n]...)
+			if err != nil {
+				if err != io.EOF {
+					c.readErr = err
+				}
+				break
+			}
+			if calls > 1<<22 {
+				c.harnessErr = "reader never ends"
+				return
+			}
+		}
+		c.closeErr = rc.Close()
+	}()
+	// The consumer can only block when the cache's Push returned without draining
+	// its pipe end. The wait below decides nothing by itself: the verdict comes from
+	// the state of the cache; a blocked consumer in a shape where the cache must be
+	// filled is inconclusive.
+	blocked := false
+	var c consumed
+	select {
+	case c = <-consumerDone:
+	case <-time.After(4 * time.Second):
+		blocked = true
+		res.Count("proxy_consumer_blocked", 1)
+		c.readErr = errors.New("consumer blocked in the proxy's pipe")
+	}
+	got, readErr, closeErr, harnessErr := c.got, c.readErr, c.closeErr, c.harnessErr
+	if harnessErr != "" {
+		res.Violate("harness:proxy-read-loop", harnessErr, k.witness(nil))
+		return
+	}
 	after := listing(blobsDir)
 	v := look(cache, d)
 	w := func() map[string]any {
@@ -518,6 +546,8 @@ func seqProxy(res *worker.Result, k *kase, tr truth, rng *rand.Rand) {
 			return
 		}
 		res.Count("bad_cache_fills_refused", 1)
+	case blocked:
+		res.Inconc = "proxy consumer blocked on " + sfx(k)
 	case tr.Exact && !overLimit:
 		if readErr != nil || closeErr != nil || !bytes.Equal(got, k.Stream) {
 			res.Violate("exact-push-refused:"+sfx(k), fmt.Sprintf("reading exact content through the proxy: read err=%s close err=%s equal=%v", errStr(readErr), errStr(closeErr), bytes.Equal(got, k.Stream)), w())
